@@ -171,6 +171,9 @@ def build_call(r, build):
             return collections.ChainMap(dict(kw), {'zz': 0})
         if kind == 'exc':
             return ValueError(*a)
+        if kind == 'tsize':     # os.terminal_size: a struct sequence of two fields (printed with its field names as comments)
+            import os
+            return os.terminal_size((a + [None, None])[:2])
         if kind == 'partial':
             return functools.partial(free_function, *a, **dict(kw))
     if kind == 'nt':        # a namedtuple with two fields: values from the keyword part, None where missing
@@ -181,7 +184,7 @@ def build_call(r, build):
 
 
 # standard-library containers built from the same recipe shape: positional part -> elements / arguments, keyword part -> entries
-STD_CALL_KINDS = ('deque', 'odict', 'ddict', 'mproxy', 'chainmap', 'exc', 'partial')
+STD_CALL_KINDS = ('deque', 'odict', 'ddict', 'mproxy', 'chainmap', 'exc', 'partial', 'tsize')
 import collections as _coll
 PairNT = _coll.namedtuple('PairNT', 'a b')
 PairNT.__module__ = __name__
